@@ -167,6 +167,15 @@ func c11ResumeWakeup(rep *explore.Report) {
 func c11PauseDuringReconcile(rep *explore.Report) {
 	w := world.New()
 	seeds := append(searchSeeds(c02Grids()[:1]), c09ExtraSeeds(false)...)
+	// sets that have a status to write AND history to trim in the same reconcile: what follows the status write in the
+	// reconcile must not happen either once the pause has been read
+	for _, pol := range []string{"OrderedReady", "Parallel"} {
+		for _, lim := range []int32{0, 1} {
+			sc := gen.Scenario{Spec: gen.Spec{Name: "web", Replicas: 2, Policy: pol, Strategy: gen.RU(0), Limit: lim, Template: 3}, Revs: []int{1, 2, 3}, Cur: 2,
+				Cells: []gen.Cell{gen.ReadyAt(2), gen.ReadyAt(2), gen.Absent}, StaleStatus: true}
+			seeds = append(seeds, explore.Seed{Label: sc.String(), State: sc.Build(w)})
+		}
+	}
 	key := world.NS + "/web"
 	var n int64
 	for _, sd := range seeds {
